@@ -1484,7 +1484,7 @@ func genCase(t *rapid.T) c15Case {
 			rb.WriteString("%" + strconv.Itoa(rapid.IntRange(1, 9).Draw(t, "rcap")))
 		}
 	}
-	n := int64(rapid.IntRange(0, 3).Draw(t, "n"))
+	n := int64(rapid.IntRange(-2, 3).Draw(t, "n"))
 	return mkCase(p, s, init, rb.String(), n)
 }
 
@@ -1705,7 +1705,7 @@ func (ck *checker) exhaustive() {
 				}
 			}
 		}
-		ck.batchLua(pp, mask, defaultRep, int64(idx%3))
+		ck.batchLua(pp, mask, defaultRep, int64(idx%4)-1)
 		if nPat%64 == 1 {
 			rec.Sample(map[string]any{"pattern": p, "tokens": ntok, "note": pp.note, "subjects": strings.Count(string(mask), "1")})
 		}
